@@ -403,6 +403,8 @@ func (b BlockEntity) WriteTo(w io.Writer) (n int64, err error) {
 }
 
 func (b *BlockEntity) ReadFrom(r io.Reader) (n int64, err error) {
+	// A TAG_End on the wire leaves the destination untouched: forget what a reused entity held before.
+	b.Data = nbt.RawMessage{Type: nbt.TagEnd, Data: b.Data.Data[:0]}
 	return pk.Tuple{
 		(*pk.Byte)(&b.XZ),
 		(*pk.Short)(&b.Y),
